@@ -255,6 +255,80 @@ fn type_size<'tcx>(tcx: TyCtxt<'tcx>, t: Ty<'tcx>) -> Option<u64> {
     tcx.layout_of(env.as_query_input(t)).ok().map(|l| l.size.bytes())
 }
 
+/// Typed tree of a constant stored in memory, decoded through the type's layout (little-endian target): integers, floats,
+/// tuples, structs, arrays and thin references (followed through the allocation's provenance). Enums and fat pointers -> None.
+fn const_tree<'tcx>(tcx: TyCtxt<'tcx>, aid: mir::interpret::AllocId, off: u64, t: Ty<'tcx>, depth: u32) -> Option<J> {
+    if depth > 6 {
+        return None;
+    }
+    let env = TypingEnv::fully_monomorphized();
+    let layout = tcx.layout_of(env.as_query_input(t)).ok()?;
+    let size = layout.size.bytes() as usize;
+    match t.kind() {
+        ty::Bool | ty::Char | ty::Int(_) | ty::Uint(_) | ty::Float(_) => {
+            if size > 16 {
+                return None;
+            }
+            let b = bytes_of_alloc(tcx, aid, off, size)?;
+            let mut v: u128 = 0;
+            for (i, x) in b.iter().enumerate() {
+                v |= (*x as u128) << (8 * i);
+            }
+            Some(J::Obj(vec![
+                ("k", J::s(if t.is_floating_point() { "float" } else { "int" })),
+                ("ty", ty_json(tcx, t)),
+                ("bits", J::s(format!("{:#x}", v))),
+                ("size", J::Int(size as i128)),
+            ]))
+        }
+        ty::Tuple(fields) => {
+            let mut out = Vec::new();
+            for (i, ft) in fields.iter().enumerate() {
+                let fo = layout.fields.offset(i).bytes();
+                out.push(const_tree(tcx, aid, off + fo, ft, depth + 1)?);
+            }
+            Some(J::Obj(vec![("k", J::s("tuple")), ("fields", J::Arr(out))]))
+        }
+        ty::Array(elem, _) => {
+            let n = layout.fields.count();
+            if n > 4096 {
+                return None;
+            }
+            let mut out = Vec::new();
+            for i in 0..n {
+                let fo = layout.fields.offset(i).bytes();
+                out.push(const_tree(tcx, aid, off + fo, *elem, depth + 1)?);
+            }
+            Some(J::Obj(vec![("k", J::s("array")), ("elem", ty_json(tcx, *elem)), ("elems", J::Arr(out))]))
+        }
+        ty::Adt(def, args) if def.is_struct() => {
+            let mut out = Vec::new();
+            for (i, fd) in def.non_enum_variant().fields.iter().enumerate() {
+                let fo = layout.fields.offset(i).bytes();
+                out.push(const_tree(tcx, aid, off + fo, fd.ty(tcx, args), depth + 1)?);
+            }
+            Some(J::Obj(vec![("k", J::s("struct")), ("path", J::s(tcx.def_path_str(def.did()))), ("fields", J::Arr(out))]))
+        }
+        ty::Ref(_, inner, _) => {
+            if !inner.is_sized(tcx, env) {
+                return None;
+            }
+            if let mir::interpret::GlobalAlloc::Memory(a) = tcx.global_alloc(aid) {
+                let p2 = a.inner().provenance().get_ptr(rustc_abi::Size::from_bytes(off))?;
+                let b = bytes_of_alloc(tcx, aid, off, 8)?;
+                let mut po: u64 = 0;
+                for (i, x) in b.iter().enumerate() {
+                    po |= (*x as u64) << (8 * i);
+                }
+                let sub = const_tree(tcx, p2.alloc_id(), po, *inner, depth + 1)?;
+                return Some(J::Obj(vec![("k", J::s("ref")), ("to", sub)]));
+            }
+            None
+        }
+        _ => None,
+    }
+}
+
 fn const_value_json<'tcx>(tcx: TyCtxt<'tcx>, cv: ConstValue, t: Ty<'tcx>) -> J {
     match cv {
         ConstValue::Scalar(mir::interpret::Scalar::Int(si)) => {
@@ -285,9 +359,11 @@ fn const_value_json<'tcx>(tcx: TyCtxt<'tcx>, cv: ConstValue, t: Ty<'tcx>) -> J {
                 }
                 if let Some(sz) = type_size(tcx, *inner) {
                     if let Some(b) = bytes_of_alloc(tcx, aid, off.bytes(), sz as usize) {
+                        let tree = const_tree(tcx, aid, off.bytes(), *inner, 0).unwrap_or(J::Null);
                         return J::Obj(vec![
                             ("kind", J::s("ref_bytes")),
                             ("bytes", J::Arr(b.into_iter().map(|x| J::Int(x as i128)).collect())),
+                            ("tree", tree),
                         ]);
                     }
                 }
@@ -313,15 +389,17 @@ fn const_value_json<'tcx>(tcx: TyCtxt<'tcx>, cv: ConstValue, t: Ty<'tcx>) -> J {
             }
         }
         ConstValue::Indirect { alloc_id, offset } => {
+            let tree = const_tree(tcx, alloc_id, offset.bytes(), t, 0).unwrap_or(J::Null);
             if let Some(sz) = type_size(tcx, t) {
                 if let Some(b) = bytes_of_alloc(tcx, alloc_id, offset.bytes(), sz as usize) {
                     return J::Obj(vec![
                         ("kind", J::s("bytes")),
                         ("bytes", J::Arr(b.into_iter().map(|x| J::Int(x as i128)).collect())),
+                        ("tree", tree),
                     ]);
                 }
             }
-            J::Obj(vec![("kind", J::s("indirect"))])
+            J::Obj(vec![("kind", J::s("indirect")), ("tree", tree)])
         }
     }
 }
